@@ -1,4 +1,5 @@
 import Pyunicorn.Lemmas.Mpi
+import Pyunicorn.Lemmas.MpiProto
 import Pyunicorn.Generated.ArithC19
 import Pyunicorn.Generated.StructC19
 /-!
@@ -289,3 +290,400 @@ theorem sum_assemble_eq_serial (N : Nat) (f : Nat → Nat → Int) (a0 : Nat) (b
 example : (assembleSum 2 (fun i j => (i : Int) + j) [(0, 2), (2, 3)])[1]? = some 6 := by decide
 
 end Pyunicorn.Mpi
+
+/-! ## Round 3 — the whole protocol of `utils/mpi.py` as a state machine
+
+Model: `Pyunicorn.MpiProto` (master `submit_call` with slave selection by accumulated
+time estimates, `get_result`, `get_next_result`, `terminate()` at the end of `run()`,
+the slaves' `serve()` loop, one FIFO channel per direction and slave).  A schedule is
+any list of ranks (0 = master); a rank that cannot move is skipped, so the theorems
+below quantify over *every* interleaving of master steps, slave steps and message
+deliveries.  `spec*` is the communicator-free meaning of the master's calls. -/
+namespace Pyunicorn.MpiProto
+open Pyunicorn.Mpi (lookup)
+open Pyunicorn.Generated
+
+variable {α β : Type}
+
+/-- **Refinement, every schedule.**  For every number of ranks `size ≥ 2`, every master
+program (ids, payloads, time estimates, explicit `slave=` arguments), every schedule:
+as long as no call has raised, the values `get_result` / `get_next_result` have
+returned so far and the calls still pending are exactly what the communicator-free
+specification prescribes for the calls made so far — `get_result(id)` returns the
+result of the job submitted under `id`. -/
+theorem mpi_refines_spec (f : α → β) (size : Nat) (hsize : 2 ≤ size) (prog : List (Op α))
+    (cs : List Nat) :
+    let st := run f (init (β := β) size prog) cs
+    st.err = none →
+      specRun f (st.queue, st.got) st.prog = specRun f ([], []) prog := by
+  intro st herr
+  exact (inv_runSched f prog cs _ (inv_init f size prog hsize)).S herr
+
+/-- **Completed runs return the specified results**, whatever the schedule, the number
+of slaves and the time estimates were. -/
+theorem finished_run_eq_spec (f : α → β) (size : Nat) (hsize : 2 ≤ size) (prog : List (Op α))
+    (cs : List Nat) :
+    let st := run f (init (β := β) size prog) cs
+    st.err = none → st.finished = true →
+      specRun f ([], []) prog = .ok (st.queue, st.got) := by
+  intro st herr hfin
+  have hinv := inv_runSched f prog cs _ (inv_init f size prog hsize)
+  have := hinv.S herr
+  rw [hinv.finProg hfin] at this
+  exact this.symm
+
+/-- the specification ignores time estimates and `slave=` arguments -/
+def eraseHints : Op α → Op α
+  | .submit id p _ _ => .submit id p 1 none
+  | op => op
+
+theorem specRun_eraseHints (f : α → β) (s : List (Nat × α) × List (Nat × β)) (prog : List (Op α)) :
+    specRun f s (prog.map eraseHints) = specRun f s prog := by
+  induction prog generalizing s with
+  | nil => rfl
+  | cons op t ih =>
+    cases op <;> simp only [List.map_cons, specRun, specStep, eraseHints] <;> split <;> simp_all
+
+/-- **Independence of worker count, time estimates, `slave=` arguments and schedule**:
+two completed error-free runs of master programs that differ only in time estimates
+and `slave=` arguments, on worlds of any two sizes, under any two schedules, return
+the same values in the same order (and leave the same calls pending). -/
+theorem results_independent (f : α → β) (size₁ size₂ : Nat) (h₁ : 2 ≤ size₁) (h₂ : 2 ≤ size₂)
+    (prog₁ prog₂ : List (Op α)) (hsame : prog₁.map eraseHints = prog₂.map eraseHints)
+    (cs₁ cs₂ : List Nat) :
+    let st₁ := run f (init (β := β) size₁ prog₁) cs₁
+    let st₂ := run f (init (β := β) size₂ prog₂) cs₂
+    st₁.err = none → st₁.finished = true → st₂.err = none → st₂.finished = true →
+      st₁.got = st₂.got ∧ st₁.queue = st₂.queue := by
+  intro st₁ st₂ e₁ f₁ e₂ f₂
+  have a := finished_run_eq_spec f size₁ h₁ prog₁ cs₁ e₁ f₁
+  have b := finished_run_eq_spec f size₂ h₂ prog₂ cs₂ e₂ f₂
+  rw [← specRun_eraseHints, hsame, specRun_eraseHints, b] at a
+  have := Except.ok.inj a
+  exact ⟨(Prod.mk.inj this).2.symm, (Prod.mk.inj this).1.symm⟩
+
+/-- **Every submitted job is executed at most once, in order, by the slave it was sent
+to** — in every reachable state: what rank `s` has executed, followed by the calls still
+in its channel, is exactly what was handed to it. -/
+theorem executed_prefix_of_sent (f : α → β) (size : Nat) (hsize : 2 ≤ size) (prog : List (Op α))
+    (cs : List Nat) (s : Nat) :
+    let st := run f (init (β := β) size prog) cs
+    sentTo st s = execBy st s ++ calls (st.inbox s) := by
+  intro st
+  exact (inv_runSched f prog cs _ (inv_init f size prog hsize)).E s
+
+/-- **… and exactly once** when the run is complete: once the master has collected
+everything it submitted (`queue` empty), every slave has executed exactly the calls
+handed to it. -/
+theorem executed_exactly_once (f : α → β) (size : Nat) (hsize : 2 ≤ size) (prog : List (Op α))
+    (cs : List Nat) (s : Nat) :
+    let st := run f (init (β := β) size prog) cs
+    st.queue = [] → execBy st s = sentTo st s := by
+  intro st hq
+  have hinv := inv_runSched f prog cs _ (inv_init f size prog hsize)
+  have hA := hinv.A s
+  have hG := hinv.G s
+  rw [hq] at hG
+  simp only [List.filter_nil] at hG
+  rw [hG] at hA
+  have hc : calls (st.inbox s) = [] := by
+    have : ((st.outbox s).map (·.1) ++ (calls (st.inbox s)).map f).length = 0 := by
+      rw [← hA]; rfl
+    simp at this
+    exact this.2
+  have hE := hinv.E s
+  rw [hc] at hE
+  simpa using hE.symm
+
+/-- **No deadlock**: in every reachable state in which `run()` has not yet returned on
+the master and no call has raised, some rank can move — if the master is blocked in
+`comm.recv(source)`, slave `source` is alive and has the call in its channel. -/
+theorem no_deadlock (f : α → β) (size : Nat) (hsize : 2 ≤ size) (prog : List (Op α))
+    (cs : List Nat) :
+    let st := run f (init (β := β) size prog) cs
+    st.finished = false → st.err = none → ∃ c, (step f st c).isSome = true := by
+  intro st hfin herr
+  exact progress f prog st (inv_runSched f prog cs _ (inv_init f size prog hsize)) hfin herr
+
+/-- the master's bookkeeping stays consistent: per-slave queues are the sub-sequences of
+the global queue, ids pending are unique, every assigned slave is a real slave rank -/
+theorem master_bookkeeping (f : α → β) (size : Nat) (hsize : 2 ≤ size) (prog : List (Op α))
+    (cs : List Nat) :
+    let st := run f (init (β := β) size prog) cs
+    (st.queue.map (·.1)).Nodup ∧
+    (∀ s, st.squeue s = st.queue.filter (fun x => lookup x.1 st.assigned == some s)) ∧
+    (∀ id s, lookup id st.assigned = some s → 1 ≤ s ∧ s < st.size) := by
+  intro st
+  have hinv := inv_runSched f prog cs _ (inv_init f size prog hsize)
+  exact ⟨hinv.Q, hinv.G, hinv.R⟩
+
+/-- **Collection in submission order never raises**: if the master program submits only
+ids that are not pending and every `get_result(id)` asks for the oldest pending id
+(`inOrder`, a static check of the program), then under every schedule, for every number
+of slaves, every time estimate and every `slave=` argument no call ever raises — in
+particular `get_result` never fails its per-slave FIFO test. -/
+theorem inorder_never_raises (f : α → β) (size : Nat) (hsize : 2 ≤ size) (prog : List (Op α))
+    (hio : inOrder [] prog = true) (cs : List Nat) :
+    (run f (init (β := β) size prog) cs).err = none :=
+  inOrder_run f prog cs _ (inv_init f size prog hsize) rfl (by simpa [init] using hio)
+
+/-- the master loops of `core/network.py`: `submit_call(..., id=i)` for `i = 0..parts-1`,
+then `get_result(i)` for `i = 0..parts-1` -/
+def masterProg (parts : Nat) (payload : Nat → α) (est : Nat → Int) : List (Op α) :=
+  (List.range parts).map (fun i => Op.submit i (payload i) (est i) none) ++
+  (List.range parts).map (fun i => Op.get i)
+
+private theorem inOrder_gets (pend : List Nat) :
+    inOrder (α := α) pend (pend.map (fun i => Op.get i)) = true := by
+  induction pend with
+  | nil => rfl
+  | cons h t ih => simp [inOrder, ih]
+
+private theorem inOrder_submits (payload : Nat → α) (est : Nat → Int) (l pend : List Nat)
+    (hnd : (pend ++ l).Nodup) :
+    inOrder pend (l.map (fun i => Op.submit i (payload i) (est i) none) ++
+      (pend ++ l).map (fun i => Op.get i)) = true := by
+  induction l generalizing pend with
+  | nil => simpa using inOrder_gets pend
+  | cons i t ih =>
+    have hnot : i ∉ pend := by
+      intro hm
+      have := List.nodup_append.mp hnd
+      exact this.2.2 i hm i (by simp) rfl
+    have := ih (pend ++ [i]) (by simpa using hnd)
+    simp only [List.map_cons, List.cons_append, inOrder, Bool.and_eq_true, Bool.not_eq_true']
+    refine ⟨by simpa using hnot, ?_⟩
+    simpa using this
+
+/-- **the master loops of the three measures never raise and return chunk `i` for id `i`**
+— under every schedule, every number of slaves `size - 1 ≥ 1`, every time estimate: the
+run cannot fail, and once `run()` has returned, `get_result(i)` has returned `f (payload i)`
+for `i = 0..parts-1`, in this order (`f` = the chunk kernel, `payload i` = the arguments of
+chunk `i`). -/
+theorem master_loop_correct (f : α → β) (size : Nat) (hsize : 2 ≤ size) (parts : Nat)
+    (payload : Nat → α) (est : Nat → Int) (cs : List Nat) :
+    let st := run f (init (β := β) size (masterProg parts payload est)) cs
+    st.err = none ∧
+    (st.finished = true → st.got = (List.range parts).map (fun i => (i, f (payload i)))) := by
+  intro st
+  have hio : inOrder [] (masterProg parts payload est) = true := by
+    have := inOrder_submits payload est (List.range parts) [] (by simpa using List.nodup_range)
+    simpa [masterProg] using this
+  have herr := inorder_never_raises f size hsize _ hio cs
+  refine ⟨herr, fun hfin => ?_⟩
+  have hspec := finished_run_eq_spec f size hsize _ cs herr hfin
+  -- the specification of the loop
+  have hsub : ∀ (l : List Nat) (q : List (Nat × α)) (out : List (Nat × β)) (r : List (Op α)),
+      (q.map (·.1) ++ l).Nodup →
+      specRun f (q, out) (l.map (fun i => Op.submit i (payload i) (est i) none) ++ r) =
+        specRun f (q ++ l.map (fun i => (i, payload i)), out) r := by
+    intro l
+    induction l with
+    | nil => intro q out r _; simp
+    | cons i t ih =>
+      intro q out r hnd
+      have hnot : i ∉ q.map (·.1) := by
+        intro hm
+        exact (List.nodup_append.mp hnd).2.2 i hm i (by simp) rfl
+      have hl : (lookup i q).isSome = false := by
+        cases hx : (lookup i q).isSome with
+        | false => rfl
+        | true => exact absurd ((lookup_isSome_iff i q).mp hx) hnot
+      simp only [List.map_cons, List.cons_append, specRun, specStep, hl]
+      have := ih (q ++ [(i, payload i)]) out r (by simpa using hnd)
+      simpa using this
+  have hget : ∀ (q : List (Nat × α)) (out : List (Nat × β)),
+      specRun f (q, out) (q.map (fun x => Op.get x.1)) =
+        .ok ([], out ++ q.map (fun x => (x.1, f x.2))) := by
+    intro q
+    induction q with
+    | nil => intro out; simp [specRun]
+    | cons x t ih =>
+      intro out
+      simp only [List.map_cons, specRun, specStep, lookup, if_true, eraseId]
+      rw [ih]; simp
+  have hall : specRun f ([], []) (masterProg parts payload est) =
+      .ok ([], (List.range parts).map (fun i => (i, f (payload i)))) := by
+    unfold masterProg
+    rw [hsub (List.range parts) [] [] _ (by simpa using List.nodup_range)]
+    have := hget ((List.range parts).map (fun i => (i, payload i))) []
+    simpa [List.map_map, Function.comp_def] using this
+  rw [hall] at hspec
+  exact (Prod.mk.inj (Except.ok.inj hspec)).2.symm
+
+/-- **Single-process mode returns the same**: without slaves (`mpi.available == False`,
+`size < 2`: every call is executed inside `submit_call`) a completed error-free run
+returns what the specification prescribes — hence, with `finished_run_eq_spec`, exactly
+what every completed distributed run returns. -/
+theorem serial_run_eq_spec (f : α → β) (size : Nat) (hsize : size < 2) (prog : List (Op α))
+    (cs : List Nat) :
+    let st := run f (init (β := β) size prog) cs
+    st.err = none → st.finished = true →
+      specRun f ([], []) prog = .ok (st.queue, st.got) := by
+  intro st herr hfin
+  have hinv := sinv_runSched f prog cs _ (sinv_init f size prog hsize)
+  have := hinv.S herr
+  rw [hinv.finProg hfin] at this
+  exact this.symm
+
+/-- **distributed = serial** at the level of the protocol -/
+theorem distributed_eq_serial (f : α → β) (size : Nat) (hsize : 2 ≤ size) (prog : List (Op α))
+    (cs cs' : List Nat) :
+    let st := run f (init (β := β) size prog) cs
+    let st' := run f (init (β := β) 1 prog) cs'
+    st.err = none → st.finished = true → st'.err = none → st'.finished = true →
+      st.got = st'.got := by
+  intro st st' e₁ f₁ e₂ f₂
+  have a := finished_run_eq_spec f size hsize prog cs e₁ f₁
+  have b := serial_run_eq_spec f 1 (by omega) prog cs' e₂ f₂
+  rw [b] at a
+  exact (Prod.mk.inj (Except.ok.inj a)).2.symm
+
+/-! ### the multiprocessing split of `targets` in `Network._nsi_betweenness` -/
+
+theorem splitSizes_flatten {γ : Type} (xs : List γ) (ks : List Nat) (h : xs.length ≤ ks.sum) :
+    (splitSizes xs ks).flatten = xs := by
+  induction ks generalizing xs with
+  | nil =>
+    simp at h
+    simp [splitSizes, h]
+  | cons k t ih =>
+    simp only [splitSizes, List.flatten_cons]
+    rw [ih (xs.drop k) (by simp at h ⊢; omega)]
+    exact List.take_append_drop k xs
+
+private theorem sum_replicate_nat (k a : Nat) : (List.replicate k a).sum = k * a := by
+  induction k with
+  | zero => simp
+  | succ k ih => rw [List.replicate_succ, List.sum_cons, ih, Nat.succ_mul]; omega
+
+theorem sectionSizes_sum (total n : Nat) (hn : 1 ≤ n) : (sectionSizes total n).sum = total := by
+  unfold sectionSizes
+  simp only [List.sum_append, sum_replicate_nat]
+  have h1 := Nat.div_add_mod total n
+  have h2 := Nat.mod_lt total (show n > 0 by omega)
+  have h3 : (n - total % n) * (total / n) = n * (total / n) - total % n * (total / n) :=
+    Nat.sub_mul _ _ _
+  have h4 : total % n * (total / n + 1) = total % n * (total / n) + total % n := by
+    rw [Nat.mul_add]; omega
+  have h5 : total % n * (total / n) ≤ n * (total / n) :=
+    Nat.mul_le_mul_right _ (by omega)
+  omega
+
+/-- **the batches partition the requested targets**: for every `targets` array and every
+number of worker processes `n ≥ 1`, `np.array_split(targets, n)` yields exactly `n`
+batches whose concatenation is `targets` (nothing lost, nothing duplicated, order kept;
+empty batches when `n` exceeds the number of targets). -/
+theorem pool_batches_partition {γ : Type} (targets : List γ) (n : Nat) (hn : 1 ≤ n) :
+    (arraySplit targets n).flatten = targets ∧ (arraySplit targets n).length = n := by
+  constructor
+  · exact splitSizes_flatten _ _ (by rw [sectionSizes_sum _ _ hn]; exact Nat.le_refl _)
+  · have hlen : ∀ (xs : List γ) (ks : List Nat), (splitSizes xs ks).length = ks.length := by
+      intro xs ks
+      induction ks generalizing xs with
+      | nil => rfl
+      | cons k t ih => simp [splitSizes, ih]
+    unfold arraySplit
+    rw [hlen]
+    have := Nat.mod_lt targets.length (show n > 0 by omega)
+    simp [sectionSizes]; omega
+
+/-- **pool result = serial result** for a kernel that adds one contribution per target
+(`g t` = contribution of target `t` to one node's value, exact arithmetic): the sum over
+the batches of the per-batch results is the result for the whole `targets` array. -/
+theorem pool_sum_eq_serial (g : Nat → Int) (targets : List Nat) (n : Nat) (hn : 1 ≤ n) :
+    ((arraySplit targets n).map (fun b => (b.map g).sum)).sum = (targets.map g).sum := by
+  have h := (pool_batches_partition targets n hn).1
+  have key : ∀ bs : List (List Nat),
+      (bs.map (fun b => (b.map g).sum)).sum = (bs.flatten.map g).sum := by
+    intro bs
+    induction bs with
+    | nil => rfl
+    | cons b t ih => simp [ih, List.sum_append]
+  rw [key, h]
+
+example : arraySplit [5, 6, 7, 8, 9, 10, 11] 3 = [[5, 6, 7], [8, 9], [10, 11]] := by decide
+example : arraySplit [1, 2] 4 = [[1], [2], [], []] := by decide
+
+/-! ### the source the protocol model transcribes (regenerated on every run) -/
+
+/-- **the statements of `utils/mpi.py` the model transcribes** — communication, the
+master's bookkeeping, slave choice, control flow of `submit_call`, `get_result`,
+`get_next_result`, `terminate`, `serve` and `run`, extracted from the current source
+by `translate/gen_C19.py` (conditions in brackets; print / timing statements dropped).
+`doSubmit`/`doSubmitLocal`/`chooseSlave`, `getStep`/`doGet`/`doGetLocal`, `doTerminate`,
+`slaveStep`/`doCall`/`doStop` are these statements; an edit to any of them breaks this
+theorem. -/
+theorem protocol_structure :
+    StructC19.mpi_submit_call = [
+      "[id is None] id = numpy.random.uniform()",
+      "[id in assigned] raise MPIException",
+      "[slave is not None and am_slave] raise MPIException",
+      "[slave is None or slave < 1 or slave >= size] slave = numpy.argmin(total_time_est)",
+      "[available] comm.send((name_to_call, args, kwargs, module, time_est), dest=slave)",
+      "[not (available)] slave = 0",
+      "[not (available) & except NameError] raise",
+      "[not (available)] results[id] = object_to_call(*args, **kwargs)",
+      "total_time_est[slave] += time_est",
+      "queue.append(id)",
+      "slave_queue[slave].append(id)",
+      "assigned[id] = slave",
+      "return id"
+    ] ∧ StructC19.mpi_get_result = [
+      "source = assigned[id]",
+      "[available & slave_queue[source][0] != id] raise MPIException",
+      "[available] result, this_stats = comm.recv(source=source)",
+      "[available] n_processed[source] = this_stats['n_processed']",
+      "[not (available)] result = results[id]",
+      "queue.remove(id)",
+      "slave_queue[source].remove(id)",
+      "assigned.pop(id)",
+      "return result"
+    ] ∧ StructC19.mpi_get_next_result = [
+      "[len(queue) > 0] id = queue[0]",
+      "[len(queue) > 0] return get_result(id)",
+      "[not (len(queue) > 0)] return None"
+    ] ∧ StructC19.mpi_terminate = [
+      "[available & for slave in range(1, size)] comm.send(('terminate', (), {}, '', 0), dest=slave)",
+      "[available] available = False"
+    ] ∧ StructC19.mpi_serve = [
+      "[while True] name_to_call, args, kwargs, module, time_est = comm.recv(source=0)",
+      "[while True & name_to_call == 'terminate'] break",
+      "[while True & except NameError] raise",
+      "[while True] total_time_est[rank] += time_est",
+      "[while True] result = object_to_call(*args, **kwargs)",
+      "[while True] comm.send((result, stats[-1]), dest=0)"
+    ] ∧ StructC19.mpi_run = [
+      "[available & am_master & 'master' in _globals] _globals['master']()",
+      "[available & am_master & except ValueError] abort()",
+      "[available & am_master] terminate()",
+      "[available & not (am_master) & 'slave' in _globals] _globals['slave']()",
+      "[available & not (am_master) & not ('slave' in _globals)] serve()",
+      "[not (available) & 'master' in _globals] _globals['master']()"
+    ] := by
+  refine ⟨rfl, rfl, rfl, rfl, rfl, rfl⟩
+
+/-- **the pool split of `Network._nsi_betweenness` in the current source**: the batches
+are `np.array_split(targets, n_workers)` of the *requested* targets, every batch goes
+through the same `worker` as the serial call `worker(targets)`, and the per-batch
+results are added (`np.sum(..., axis=0)`) — the shape `pool_batches_partition` and
+`pool_sum_eq_serial` are about. -/
+theorem pool_structure :
+    StructC19.pool_split = "np.array_split(targets, n_workers)" ∧
+    StructC19.pool_map = "pool.map(worker, batches)" ∧
+    StructC19.pool_reduce = "np.sum(<map>, axis=0)" ∧
+    StructC19.pool_serial = "worker(targets)" ∧
+    StructC19.pool_conditions = ["parallelize"] := by
+  refine ⟨rfl, rfl, rfl, rfl, rfl⟩
+
+/-- non-vacuity: a completed error-free run on 3 ranks (2 slaves) of
+`submit 0,1,2; get 0; get 1; get_next` under an interleaved schedule -/
+example :
+    let st := run (fun p : Nat => p * p + 1)
+      (init (β := Nat) 3 [.submit 0 5 1 none, .submit 1 6 1 none, .submit 2 7 1 none,
+        .get 0, .get 1, .getNext]) [0, 0, 0, 0, 1, 2, 1, 0, 0, 0, 0, 1, 2]
+    st.err = none ∧ st.finished = true ∧ st.got = [(0, 26), (1, 37), (2, 50)] ∧ st.queue = [] := by
+  decide
+
+end Pyunicorn.MpiProto
+
